@@ -13,7 +13,7 @@ from .const import (
 from ._validate_common import ValidationError, ValidationErrorData
 from .schema import extract_record_type, extract_logical_type, schema_name, parse_schema
 from .logical_writers import LOGICAL_WRITERS
-from ._schema_common import UnknownType
+from ._schema_common import UnknownType, default_to_python
 from .types import Schema, NamedSchemas
 
 NoValue = object()
@@ -136,6 +136,15 @@ def _validate_map(datum, schema, named_schemas, parent_ns, raise_errors, options
     )
 
 
+def _field_value(datum, field, named_schemas):
+    """The value to validate for a record field: what the writer would write"""
+    if field["name"] in datum:
+        return datum[field["name"]]
+    if "default" in field:
+        return default_to_python(field["default"], field["type"], named_schemas)
+    return NoValue
+
+
 def _validate_record(datum, schema, named_schemas, parent_ns, raise_errors, options):
     """
     Check that the data is a Mapping type with all schema defined fields
@@ -147,7 +156,7 @@ def _validate_record(datum, schema, named_schemas, parent_ns, raise_errors, opti
         and not ("-type" in datum and datum["-type"] != schema["name"])
         and all(
             _validate(
-                datum=datum.get(f["name"], f.get("default", NoValue)),
+                datum=_field_value(datum, f, named_schemas),
                 schema=f["type"],
                 named_schemas=named_schemas,
                 field=f"{fullname}.{f['name']}",
